@@ -258,7 +258,7 @@ POOLS = {
     'I': [4, 0, 1, 2, 7, 100, 65536, 9007199254740993],
     'F': [6.5, 0.5, 1.5, 2.0, 0.1, 0.0, 1e-9, 123456.789, 1e15 + 0.5],
     'N': [-8, -1, -868, -0.5, -2.5, -1000000.0],
-    'T': ['text', 'a', ' ', 'TRUE', 'N/A', '1e', 'x1', 'Ünï'],
+    'T': ['text', 'a', ' ', 'TRUE', 'N/A', '1e', 'x1', 'Ünï', 'long text ' * 7],
     'E': [''],
     'S': ['12', '-5', '1.5', '0', '007'],
     'Y': [True],
@@ -1362,7 +1362,12 @@ def run_walk(seed, steps, st, stop_at=None):
                     v = pick(rng.choice(SYMS), rng)
                     if rng.random() < 0.15:                       # the same cell twice in one call: the later entry wins
                         cells.append(Cell(*W_CELLS[p], pick(rng.choice(SYMS), rng)))
-                    cells.append(Cell(*W_CELLS[p], cls.EmptyCell() if is_blank(v) else v))
+                    real = cls.EmptyCell() if is_blank(v) else v
+                    if rng.random() < 0.3:                        # the same cell addressed by title, column letters and row text
+                        s_, c_, r_ = W_CELLS[p]
+                        cells.append(Cell('ST'[s_], col_letters(c_), str(r_ + 1), real))
+                    else:
+                        cells.append(Cell(*W_CELLS[p], real))
                     model[p] = v
                 history.append([[W_CELLS[p], show(model[p])] for p in picks])
                 ex.set_cells(cells)
@@ -1494,7 +1499,7 @@ def _reuse_finish(res, walks, steps, t0):
         'name': 'C11.monitor.reuse',
         'bound': f'{walks} seeded workbooks (13 cells on two sheets holding constants, never written cells and formula cells; 8 argument lists x '
                  f'8 functions) x {steps} consecutive Executor.set_cells calls on ONE Executor (1, 2, 3 or all 13 cells per call, any of 10 '
-                 'contents incl. back to blank, the same cell twice in a call) with all formulas read in random order after every call, plus a '
+                 'contents incl. back to blank, the same cell twice in a call, cells addressed by index or by title/letters/row text) with all formulas read in random order after every call, plus a '
                  f'second Executor on the same class; {walks // 2} x one Parser object used for workbook A, workbook B (same formula texts), entry '
                  'cell C1, entry cell D4, back to workbook A',
         'rule': 'one evaluation = one formula value compared with the fold over the current contents (most recent override wins, '
